@@ -70,6 +70,8 @@ def run_both(col, gen, node, target, desc, kind):
         want = ('glomerr', e)
     except RecursionError:
         return None
+    except Exception as e:   # plain Python failure inside the composition (e.g. unhashable key): class must survive (C04)
+        want = ('glomerr', e)
     for f in gen.fns:
         f.log, f.calls = log_real, 0
     snap = snapshot(target)
@@ -92,8 +94,8 @@ def run_both(col, gen, node, target, desc, kind):
     else:
         cls = am.real_class(want[1])
         if got.ok or not isinstance(got.exc, cls):
-            col.violation('C03/failure-expected:' + want[1].kind, 'glom(%s, %s): laws give a %s, glom %r'
-                          % (short(target), desc, want[1].kind, got), wit)
+            col.violation('C03/failure-expected:' + cls.__name__, 'glom(%s, %s): laws give a %s, glom %r'
+                          % (short(target), desc, cls.__name__, got), wit)
             return None
     if log_real != log_model:
         n = next((i for i, (a, b) in enumerate(zip(log_real, log_model)) if a != b), min(len(log_real), len(log_model)))
